@@ -78,9 +78,9 @@ pub fn run(args: &Args) -> Report {
         let bufs: &[(usize, usize)] = if thorough { &[(1, 1), (2, 2)] } else { &[(1, 1)] };
         for &(sb, db) in bufs {
             for both in if thorough { vec![false, true] } else { vec![true] } {
-                let cfg = XferCfg { a, b, cap: 0, streams: streams(n, both), stream_buffer: sb, one_byte_frames: false, dgram_pingpong: 2, dgram_buffer: db, horizon: 20_000 };
+                let cfg = XferCfg { a, b, cap: 0, streams: streams(n, both), stream_buffer: sb, one_byte_frames: false, dgram_pingpong: 2, dgram_buffer: db, drop_mux_when_writers_done: None, horizon: 20_000 };
                 let label = format!("{} | stream_buffer={sb} datagram_buffer={db} | {}", if both { "both directions" } else { "one direction" }, cfg.describe());
-                cases.push(Case { label, exec: Box::new(move |r| xfer::exec(&cfg, &or, r)) });
+                cases.push(Case { try_unbounded: false, max_k: u32::MAX, label, exec: Box::new(move |r| xfer::exec(&cfg, &or, r)) });
             }
         }
     }
